@@ -442,6 +442,41 @@ def judge_cli_merge(task, res):
             out.append(('decisions-silent:cli-nbmerge:' + task.get('pattern', '?'), {'argv': argv, 'k': k, 'why': certain, 'log': rec.get('log', '')[-200:]}))
     return out
 
+# ------------------------------------------------------------------ boundary values at dictionary entries
+# Entries of the free-form dictionaries of a notebook (notebook / cell / output metadata and dictionaries nested in them,
+# kernelspec / language_info extras, MIME bundles of outputs and attachments) and the schema's string fields whose value is a
+# boundary value of its type ('' and other blank / newline-only strings, 0, huge numbers, booleans, null, empty and nearly empty
+# containers) appear, disappear, change type or change value: the value printers behind add / remove / replace entries see these
+# values at top level.  Rendered as a diff, as the decision list of a three-way merge and as a notebook, and through the
+# nbdiff / git diff driver / nbshow / nbmerge --decisions entry points.
+BOUNDARY_CLI_ARGVS = [[], ['--no-color'], ['-m'], ['-o'], ['-M'], ['-s', '-a'], ['--no-color', '--no-git', '--no-use-diff'], ['--color-words'], ['-m', '--no-git']]
+BOUNDARY_SHOW_ARGVS = [[], ['-s'], ['-o'], ['-m'], ['-a'], ['-s', '-o']]
+
+def gen_boundary_tasks(chk, tier):
+    """returns (render tasks, command-line tasks)"""
+    r = chk.rng
+    tasks = []; cli = []
+    n = {'quick': 36, 'thorough': 360}[tier]
+    for i in range(n):
+        ex = i % 7 == 3
+        base, local, remote, slots = G.boundary_triple(r, exotic=ex)
+        src = 'boundary-exotic' if ex else 'boundary'
+        tasks.append({'op': 'diff', 'a': base, 'b': local, 'configs': G.config_grid_light(r, i), 'src': src})
+        if i % 3 == 0: tasks.append({'op': 'diff', 'a': local, 'b': remote, 'configs': G.config_grid_light(r, i + 3), 'src': src})
+        if i % 2 == 0:
+            t = {'op': 'decisions', 'base': base, 'local': local, 'remote': remote, 'configs': G.config_grid_light(r, i + 7), 'src': src}
+            if i % 8 == 4: t['strategy'] = r.choice(['inline', 'use-base', 'use-local', 'use-remote', 'union'])
+            tasks.append(t)
+        if i % 4 == 1: tasks.append({'op': 'show', 'nb': local, 'configs': G.config_grid_light(r, i + 5), 'src': src})
+        if i % 6 == 2:
+            tl = [[True, True]] * len(BOUNDARY_CLI_ARGVS)
+            cli.append({'op': 'cli', 'app': 'nbdiff', 'nbs': [base, local], 'argvs': BOUNDARY_CLI_ARGVS, 'tools': tl, 'src': 'cli-boundary'})
+            cli.append({'op': 'cli', 'app': 'diffdriver', 'nbs': [local, base], 'argvs': BOUNDARY_CLI_ARGVS, 'tools': tl, 'src': 'cli-boundary'})
+            cli.append({'op': 'cli', 'app': 'nbshow', 'nbs': [local], 'argvs': BOUNDARY_SHOW_ARGVS, 'tools': tl[:len(BOUNDARY_SHOW_ARGVS)], 'src': 'cli-boundary'})
+            margv = [a for a in BOUNDARY_CLI_ARGVS if '--color-words' not in a and '-a' not in a]
+            cli.append({'op': 'cli', 'app': 'nbmerge', 'pattern': 'boundary', 'nbs': [base, local, remote], 'argvs': margv, 'tools': [[True, True]] * len(margv), 'src': 'cli-boundary'})
+    return tasks, cli
+
 # ------------------------------------------------------------------ Coq terms for the generated cases file
 def cstr(s):
     if all(32 <= ord(ch) < 127 and ch != '"' for ch in s): return '(of_ascii "%s")' % s
@@ -579,6 +614,8 @@ def run(tier, seed):
     cli = gen_cli_tasks(chk, tier)
     cli += gen_git_tasks(chk, tier)          # drawn last: the cases above are the same as before this family existed
     cli += gen_merge_cli_tasks(chk, tier)    # drawn after the git family for the same reason
+    btasks, bcli = gen_boundary_tasks(chk, tier)      # drawn last of all and appended behind every earlier family: tasks[:40], the samples
+    tasks += btasks; cli += bcli                      # and all earlier random draws are as they were before this family existed
     results = core.run_impl(tasks + t1cases + cli, shards=14, script='c16_runner.py')
     res_main = results[:len(tasks)]; res_t1 = results[len(tasks):len(tasks) + len(t1cases)]; res_cli = results[len(tasks) + len(t1cases):]
 
@@ -615,6 +652,7 @@ def run(tier, seed):
         ncli += len(res.get('recs', []))
         if t['app'] == 'nbdiff-git':
             ngit += len(res.get('recs', [])); hist['cli:cli-git'] = hist.get('cli:cli-git', 0) + 1
+        if t.get('src') == 'cli-boundary' and t['app'] != 'nbmerge': hist['cli:cli-boundary:' + t['app']] = hist.get('cli:cli-boundary:' + t['app'], 0) + 1
         if t['app'] == 'nbmerge':
             nmerge += len(res.get('recs', [])); hist['cli:cli-merge:' + t['pattern']] = hist.get('cli:cli-merge:' + t['pattern'], 0) + 1
             nontrivial.update(hashlib.sha1((json.dumps(a) + rec.get('out', '') + rec['log']).encode()).hexdigest() for a, rec in zip(t['argvs'], res.get('recs', [])) if rec.get('log'))
@@ -724,6 +762,7 @@ def run(tier, seed):
     chk.cov.update({
         'evaluations': nrender + ncli, 'distinct_nontrivial': len(nontrivial),
         'rule': 'one evaluation = one rendering (notebook / notebook diff from nbdime.diff_notebooks / decision list from decide_notebook_merge, or one nbdiff/nbshow/git-nbdiffdriver invocation, nbdiff also between two revisions of a scratch git history with several changed notebooks, or one nbmerge --decisions invocation over base/local/remote files any of which may be the null file) under one configuration; '
+                'boundary family (src boundary / boundary-exotic / cli-boundary): notebook pairs and triples that differ in entries of free-form dictionaries (notebook, cell and output metadata and dictionaries nested in them, kernelspec / language_info extras, MIME bundles of outputs and attachments) or in a string field of the schema, where the entry appears, disappears, changes type or changes value and one side is a boundary value of its type (empty / blank / newline-only string, 0, huge number, boolean, null, empty or nearly empty container), rendered as diff, decision list, notebook and through nbdiff / diff driver / nbshow / nbmerge --decisions; '
                 'configurations: all 64 ignore subsets x colour x colour-words x {git, diff, difflib} in full on a few cases and with the 12 colour/renderer combinations in rotation on the others, all 16 (use_git,use_diff,has_git,has_diff) settings on one case; '
                 'non-trivial = rendering of a non-empty diff / notebook / decision list that produced output, distinct by sha1 of (configuration, output text)',
         'input_distribution': hist, 'traces_validated_against_impl': t1, 'model_impl_mismatches': t1_mismatch,
